@@ -239,7 +239,7 @@ PROG_TYPES = ["i32", "i32", "i64", "i8", "i16"]
 PROG_OPS = ["addi", "addi", "addi", "muli", "muli", "subi", "shli", "andi", "ori", "xori"]
 
 
-def gen_func(rng, ty=None, ops=None, plant=()):
+def gen_func(rng, ty=None, ops=None, plant=(), name="main"):
     """Pure arith DAG `func @main`; returns (text, argtypes, number of ops, type).  `plant`: (lhs, rhs) expression pairs of rules whose
     left-hand sides are instantiated on random earlier values somewhere in the body, so that the rules have redexes
     (also near-redexes: a planted constant is sometimes replaced by a neighbouring constant)."""
@@ -316,7 +316,7 @@ def gen_func(rng, ty=None, ops=None, plant=()):
     nret = rng.choice([1, 1, 2, 3])
     # bias the returns to late values (deep expressions)
     rets = [rng.choice(env[-4:] if rng.random() < 0.7 else env) for _ in range(nret)]
-    text = ("func.func @main(" + ", ".join(f"%a{i}: {ty}" for i in range(nargs)) + ") -> (" + ", ".join([ty] * nret) + ") {\n  "
+    text = (f"func.func @{name}(" + ", ".join(f"%a{i}: {ty}" for i in range(nargs)) + ") -> (" + ", ".join([ty] * nret) + ") {\n  "
             + "\n  ".join(lines) + f"\n  func.return {', '.join(rets)} : {', '.join([ty] * nret)}\n}}\n")
     return text, [ty] * nargs, len(lines), ty
 
@@ -354,10 +354,10 @@ def run_pipeline(text, with_rules, max_iterations=20, cost_mode=("default", 1), 
         ConvertPDLInterpToEqsatPDLInterpPass().apply(ctx, m)
         st["stage"] = "apply-eqsat-pdl-interp"
         ApplyEqsatPDLInterpPass(max_iterations=max_iterations).apply(ctx, m)
-        f = next(o for o in m.body.block.ops if o.name == "func.func")
-        st["eclasses_after_saturation"] = sum(1 for o in f.walk() if o.name in ("equivalence.class", "equivalence.const_class"))
-        st["enodes_after_saturation"] = sum(len(o.operands) for o in f.walk() if o.name in ("equivalence.class", "equivalence.const_class"))
-        st["multi_node_classes"] = sum(1 for o in f.walk() if o.name in ("equivalence.class", "equivalence.const_class") and len(o.operands) > 1)
+        cls = [o for f in funcs(m) for o in f.walk() if o.name in ("equivalence.class", "equivalence.const_class")]
+        st["eclasses_after_saturation"] = len(cls)
+        st["enodes_after_saturation"] = sum(len(o.operands) for o in cls)
+        st["multi_node_classes"] = sum(1 for o in cls if len(o.operands) > 1)
     st["stage"] = "eqsat-add-costs"
     if cost_mode[0] == "default":
         EqsatAddCostsPass(default=cost_mode[1]).apply(ctx, m)
@@ -388,6 +388,38 @@ def ir_text(op):
 
 
 RULES_BY_NAME: dict = {}
+
+
+def funcs(m):
+    """All top-level func.func ops with a body, in order."""
+    return [o for o in m.body.block.ops if o.name == "func.func" and o.regions[0].blocks]
+
+
+def funcs_text(m):
+    return "\n".join(ir_text(f) for f in funcs(m))
+
+
+def module_form(m, interner):
+    """expr_form of every function: (tuple of per-function returned-expression tuples, sorted multiset of
+    (function index, expression id) of all op results)."""
+    rets, allops = [], []
+    for i, f in enumerate(funcs(m)):
+        r, a = expr_form(f, interner)
+        rets.append(r)
+        allops.extend((i, x) for x in a)
+    return tuple(rets), tuple(sorted(allops))
+
+
+def module_egraph_reference(m, cost_of, interner):
+    out = {"problems": [], "returns": [], "classes": 0, "nodes": 0, "checked": 0}
+    for f in funcs(m):
+        r = egraph_reference(f, cost_of, interner)
+        out["problems"] += r["problems"]
+        for k in ("classes", "nodes", "checked"):
+            out[k] += r[k]
+        out["returns"].append(r["returns"])
+    out["returns"] = None if any(r is None for r in out["returns"]) else tuple(out["returns"])
+    return out
 
 
 def main_func(m):
